@@ -246,6 +246,31 @@ def gen_scenario(rng, idx):
         text = "".join(l + "\n" for l in lines)
         main = "file:///zcv/a/b/c/main.conf"
         resources, cuts = gen.cut_includes(rng, text, main, ncuts=rng.choice([0, 1, 2, 3]))
+        r = rng.random()
+        if r < 0.2:
+            # an include cycle: some resource includes itself or a resource that (transitively)
+            # includes it -- the load is refused, and everything opened on the way must be closed
+            import posixpath
+            src = rng.choice(sorted(resources))
+            ancestors = {src}
+            grew = True
+            while grew:
+                grew = False
+                for a, b, _i, _j in cuts:
+                    if b in ancestors and a not in ancestors:
+                        ancestors.add(a)
+                        grew = True
+            dst = rng.choice(sorted(ancestors))
+            ref = posixpath.relpath(dst[len("file://"):], posixpath.dirname(src[len("file://"):]))
+            ls = resources[src].split("\n")
+            ls.insert(rng.randrange(len(ls)), "%%include %s" % ref)
+            resources[src] = "\n".join(ls)
+        elif r < 0.3:
+            # an include of a resource that does not exist
+            src = rng.choice(sorted(resources))
+            ls = resources[src].split("\n")
+            ls.insert(rng.randrange(len(ls)), "%include nosuchfile.conf")
+            resources[src] = "\n".join(ls)
         return {"kind": "config", "resources": resources, "main": main,
                 "packages": {pkg + "a": {"component.xml": PKG_COMPONENT}} if use_import else {},
                 "entry": rng.choice(["url", "file"])}
